@@ -45,7 +45,7 @@ def oracle(c, ob, rng):
     """the declared effect of every operation and the frame, on the implementation's observations alone"""
     msgs = []
     prev_keys = {'A': set(), 'B': set()}
-    for (col, ops), o in zip(c['hist'], ob['obs']):
+    for (col, ops), o in zip([(e[0], e[1]) for e in c['hist']], ob['obs']):
         if 'err' in o:
             created = {op[1] for op in ops if op[0] == 'generate'} | {d[0] for op in ops if op[0] == 'divide' for d in op[2]}
             removed = {op[1] for op in ops if op[0] in ('delete', 'divide', 'move')}
